@@ -480,6 +480,9 @@ package trzsz
 //@   ensures [C07] fsMono()
 //@   ensures r1 == nil ==> awWF(r0) && unboxTo(r0, "*archiveFileWriter").transfer == t
 //@   ensures forall r int {heap("string")[r]} :: r != old(ref(t.createdFiles)) && r <= old(alloc()) ==> heap("string")[r] == old(heap("string"))[r]
+//@   # C10: the root directory of an archive is made by doCreateDirectory - the function that records what it
+//@   # makes for clean-up - for exactly the path the entries will be unpacked under
+//@   before trzszTransfer.doCreateDirectory assert [C10] same(p0, fullPath)
 //@ end
 
 //@ func minInt64 pure
@@ -493,8 +496,18 @@ package trzsz
 //@   ensures len(f.RelPath) > 0 ==> same(r0, f.RelPath[len(f.RelPath) - 1])
 //@ end
 
-//@ # ASSUMED (not proved): base64 + zlib decoding of a header; touches no caller-visible memory
-//@ func decodeString trusted pure
+//@ # base64 + zlib decoding of a control line.  ASSUMED: the decoders themselves (their error detection
+//@ # included) and that the function touches no caller-visible memory ("pure").  PROVED: an error of either
+//@ # decoder - a bad alphabet, a truncated stream, a wrong checksum, reported while the inflated stream is read
+//@ # to its end - is returned as an error; it is never swallowed and the text accepted.
+//@ func decodeString pure
+//@   ghostvar decErr bool = false
+//@   after base64.Encoding.DecodeString set decErr = decErr || r1 != nil
+//@   after zlib.NewReader set decErr = decErr || r1 != nil
+//@   after io.Copy set decErr = decErr || r1 != nil
+//@   after io.ReadAll set decErr = decErr || r1 != nil
+//@   after io.ReadFull set decErr = decErr || r1 != nil
+//@   ensures [C02] decErr ==> r1 != nil
 //@ end
 
 // ===========================================================================
@@ -847,6 +860,16 @@ package trzsz
 //@   # clientError/serverError and the peer
 //@   ensures [C10] r1 == nil || r1 == result_of("trzszTransfer.sendInteger", 0, 0) || \
 //@       r1 == result_of("context.Cause", 0, 0) || r1 == result_of("context.Cause", 1, 0) || r1 == result_of("os.File.Seek", 0, 1)
+//@   # C01: the sender enters the hash phase exactly when the receiver does (the target has content and there is
+//@   # a file to compare) - whatever the source's size; C20: the bar is told the file size before the hash
+//@   # phase reports steps against it, under every protocol version
+//@   ghostvar hashed bool = false
+//@   ghostvar sized bool = false
+//@   after trzszTransfer.pipelineSendHash set hashed = true
+//@   after progressCallback.onSize set sized = true
+//@   before trzszTransfer.pipelineSendHash assert [C20] progress != nil ==> sized
+//@   before progressCallback.onSize assert [C20] p0 == srcFile.Size
+//@   ensures [C01] old(tgtFile.Size) > 0 && file != nil && result_of("trzszTransfer.sendInteger", 0, 0) == nil ==> hashed
 //@ end
 
 //@ # The hashing worker: every hash it advertises for a step is the digest state after absorbing exactly
@@ -942,6 +965,12 @@ package trzsz
 //@   ensures r1 == pkgvar("io.EOF") ==> r0 == 0 && old(arRem(f, suffix)) == 0
 //@   loop 1
 //@     invariant arWF(f) && arRem(f, suffix) == old(arRem(f, suffix))
+//@   # C11/C15: a file that ends before its listed size ends the read with an error - the reader never goes
+//@   # round again at end-of-file with bytes still owed
+//@   ghostvar eofShort bool = false
+//@   after os.File.Read set eofShort = r1 == pkgvar("io.EOF") && f.left - r0 != 0
+//@   loop 1
+//@     invariant [C11,C15] !eofShort
 //@ end
 
 //@ # sum of es[0..k): a logical function; the recursive equation is unfolded only where a contract
@@ -1420,7 +1449,7 @@ package trzsz
 //@ # both greetings carry the transfer's id without its last two characters (the environment flag) - the
 //@ # whole rest of the id, never a shorter one - and the port
 //@ func getHelloConstant pure
-//@   before fmt.Sprintf assert [C17] asInt(p1[1]) == port && \
+//@   before fmt.Sprintf assert [C17,C14] asInt(p1[1]) == port && \
 //@       len(asString(p1[0])) == ite(len(uniqueID) > 2, len(uniqueID) - 2, len(uniqueID)) && \
 //@       (forall k int {asString(p1[0])[k]} :: 0 <= k && k < len(asString(p1[0])) ==> asString(p1[0])[k] == uniqueID[k])
 //@ end
@@ -2083,10 +2112,17 @@ package trzsz
 //@   # C13: every read gets a buffer of its own - a chunk that was parked or queued is never overwritten by a
 //@   # later read (the buffer of the previous read is not the buffer of this one)
 //@   ghostvar lastBuf int = 0
-//@   after io.Reader.Read set lastBuf = ref(p0)
-//@   before io.Reader.Read assert [C13] ref(p0) != lastBuf && ref(p0) != 0
+//@   after net.Conn.Read set lastBuf = ref(p0)
+//@   before net.Conn.Read assert [C13] ref(p0) != lastBuf && ref(p0) != 0
 //@   loop 1
 //@     invariant [C13] lastBuf <= alloc()
+//@   # C17: whether this tunnel is still attached to the relay is looked up afresh for every chunk (the relay
+//@   # detaches it at the end of the transfer): an old tunnel's bytes never enter a later transfer's handshake
+//@   ghostvar attachedFresh bool = false
+//@   after net.Conn.Read set attachedFresh = false
+//@   after atomic.Pointer.Load[github.com/trzsz/trzsz-go/trzsz.TrzszRelay] set attachedFresh = true
+//@   before TrzszRelay.addHandshakeBuffer assert [C17] attachedFresh
+//@   before TrzszRelay.resetToStandby assert [C17] attachedFresh
 //@ end
 //@ func tunnelRelay.wrapOutput
 //@   # C14: end of a transfer - whenever a chunk that carries an end marker (#EXIT:, #FAIL:, #fail:) was
@@ -2100,10 +2136,17 @@ package trzsz
 //@   # C13: every read gets a buffer of its own - a chunk that was parked or queued is never overwritten by a
 //@   # later read (the buffer of the previous read is not the buffer of this one)
 //@   ghostvar lastBuf int = 0
-//@   after io.Reader.Read set lastBuf = ref(p0)
-//@   before io.Reader.Read assert [C13] ref(p0) != lastBuf && ref(p0) != 0
+//@   after net.Conn.Read set lastBuf = ref(p0)
+//@   before net.Conn.Read assert [C13] ref(p0) != lastBuf && ref(p0) != 0
 //@   loop 1
 //@     invariant [C13] lastBuf <= alloc()
+//@   # C17: whether this tunnel is still attached to the relay is looked up afresh for every chunk (the relay
+//@   # detaches it at the end of the transfer): an old tunnel's bytes never enter a later transfer's handshake
+//@   ghostvar attachedFresh bool = false
+//@   after net.Conn.Read set attachedFresh = false
+//@   after atomic.Pointer.Load[github.com/trzsz/trzsz-go/trzsz.TrzszRelay] set attachedFresh = true
+//@   before TrzszRelay.addHandshakeBuffer assert [C17] attachedFresh
+//@   before TrzszRelay.resetToStandby assert [C17] attachedFresh
 //@ end
 
 //@ # C14: the servers honour what the (possibly relay-narrowed) action allows - binary framing is used only
@@ -2283,6 +2326,9 @@ package trzsz
 //@   after trzszTransfer.recvFileNameV3 set lname = r1
 //@   after trzszTransfer.recvFileName set lname = r1
 //@   before containsString assert [C01] same(p0, localNames) && same(p1, lname)
+//@   # C09: every per-file step is given the destination the caller chose - unchanged
+//@   before trzszTransfer.recvFileNameV3 assert [C09] same(p0, old(path))
+//@   before trzszTransfer.recvFileName assert [C09] same(p0, old(path))
 //@ end
 //@ func trzszTransfer.sendFiles
 //@   ghostvar opened int = 0
@@ -2322,6 +2368,12 @@ package trzsz
 //@   after recv:md5DigestChan set dref = ref(r0)
 //@   ensures [C02] succ ==> len(r0) > 0 ==> ref(r0) == dref
 //@   ensures [C02] !succ ==> len(r0) == 0
+//@   # C08: the data phase only appends at the position the resume agreement left - it never cuts or extends the
+//@   # destination on its own (under protocol 3/4 'size' is what is LEFT to send, not the final length)
+//@   ghostvar resized bool = false
+//@   after os.File.Truncate set resized = true
+//@   after os.File.Seek set resized = true
+//@   ensures [C08,C02] !resized
 //@ end
 //@ func trzszTransfer.sendFileDataV2
 //@   ghostvar succ bool = false
@@ -2352,8 +2404,8 @@ package trzsz
 //@ # header's type digit says.
 //@ func detectZmodem
 //@   before regexp.Regexp.FindSubmatch assert [C19] recv == zmodemInitRegexp && same(p0, buf)
-//@   before bytes.Contains#0 assert [C19] same(p0, buf) && same(p1, zmodemCancelSubSequence)
-//@   before bytes.Contains#1 assert [C19] same(p0, buf) && same(p1, zmodemCanNotOpenFile)
+//@   before bytes.Contains#0 assert [C19,C05] same(p0, buf) && same(p1, zmodemCancelSubSequence)
+//@   before bytes.Contains#1 assert [C19,C05] same(p0, buf) && same(p1, zmodemCanNotOpenFile)
 //@   ensures [C19] r0 != nil ==> len(result_of("regexp.Regexp.FindSubmatch", 0, 0)) >= 2 && \
 //@       !result_of("bytes.Contains", 0, 0) && !result_of("bytes.Contains", 1, 0)
 //@   ensures [C19] r0 != nil ==> r0.upload == (result_of("regexp.Regexp.FindSubmatch", 0, 0)[1][0] == 49)
@@ -2699,4 +2751,14 @@ package trzsz
 //@   ghostvar nm string
 //@   after iface.Name set nm = r0
 //@   before checkPathReadable assert [C15,C01] len(p4) == 1 && same(p4[0], nm)
+//@ end
+
+//@ # C06: when the relay re-advertises the tunnel it replaces exactly the field pair ":<unique id>:<server port>"
+//@ # of the trigger by ":<unique id>:<relay port>" - in the chunk just read, nothing else in it
+//@ func TrzszRelay.listenForTunnel
+//@   before fmt.Sprintf#0 assert [C06] p0 == ":%s:%d" && len(p1) == 2 && asString(p1[0]) == r.trigger.uniqueID && asInt(p1[1]) == r.trigger.tunnelPort
+//@   before fmt.Sprintf#1 assert [C06] p0 == ":%s:%d" && len(p1) == 2 && asString(p1[0]) == r.trigger.uniqueID && asInt(p1[1]) == r.tunnelRelayPort
+//@   before bytes.ReplaceAll assert [C06] same(p0, buf) && len(p1) == len(result_of("fmt.Sprintf", 0, 0)) && len(p2) == len(result_of("fmt.Sprintf", 1, 0)) && \
+//@       (forall k int {p1[k]} :: 0 <= k && k < len(p1) ==> p1[k] == result_of("fmt.Sprintf", 0, 0)[k]) && \
+//@       (forall k int {p2[k]} :: 0 <= k && k < len(p2) ==> p2[k] == result_of("fmt.Sprintf", 1, 0)[k])
 //@ end
